@@ -13,6 +13,24 @@ CHECKS = {
         "text": "Generated-input search for crashes: trees from the BV/FP/string grammars in extreme-constant mode and all rewrite templates are built through the public API under RLIMIT_AS and a watchdog; any exception other than a documented ClaripyError whose condition really holds on the tree is a violation. Shows absence of crashes only on the explored cases.",
         "note": "Memory exhaustion is detected through RLIMIT_AS (6 GiB); a hang needs >10 s in the worker and >100 s alone in a fresh process, otherwise it is counted inconclusive.",
     },
+    "C05": {
+        "level": "exploration",
+        "technique": "property-based testing: recomputation oracle over every AST node produced by generated constructions, substitutions, annotation edits and Z3 abstraction",
+        "text": "Generated-input search: for every node of every AST produced while building generated BV/Bool/FP/string trees (incl. annotated and fully concrete ones), simplifying them through Z3, substituting, editing annotations and applying the ITE utilities, the reported width, variable set, symbolic flag, depth, leaf list and concrete value are recomputed independently from the node's arguments (and from the Z3 sort / free constants) and compared.",
+        "note": "Trusts the independent AST interpreter for concrete values and Z3's sort/free-constant inspection; only generated expressions are covered.",
+    },
+    "C06": {
+        "level": "exploration",
+        "technique": "stateful property-based testing: generated histories of build/annotate/drop+gc/pickle/rebuild steps with a pairwise deep-structural-equality invariant",
+        "text": "Generated histories (<=40 steps) over a pool of live expressions with annotation field values built to collide under Python's hash; after every step all pairs of live expressions satisfy `a is b` iff deep structural equality computed without hashes, and non-rewriting constructors return exactly what was requested. Failing histories are ddmin-reduced.",
+        "note": "Annotation identity is class+fields for value-semantics classes and object identity for classes without __eq__/__hash__; annotation tuples are ordered, as claripy stores them.",
+    },
+    "C07": {
+        "level": "exploration",
+        "technique": "property-based testing: annotated operation trees with a reachability oracle on annotation instances after every construction step",
+        "text": "Generated trees (all rewrite templates uniformly, random, small, concrete) with eliminatable / pinned / relocatable annotation instances on leaves and inner nodes; after each construction step pinned instances reachable from the arguments must be reachable from the result and relocatable ones of direct arguments must be on the result; claripy.simplify keeps top-level and direct-argument relocatable annotations; solver simplify/min/max/eval keep SimplificationAvoidance-annotated constraints as the same objects; the meaning oracle of C01 runs too.",
+        "note": "For SolverComposite, And-rooted annotated constraints are out of scope (the composite stores a conjunction as its conjuncts by design).",
+    },
 }
 
 NOT_APPLICABLE = {}
